@@ -143,6 +143,11 @@ fn registration_sets() -> Vec<Reg> {
         },
         // a last will aimed at a protected key: refused when the session ends at run time
         Reg { gg: vec![], lw: vec![(0, json!([{"key": "$SYS/evil", "value": 1}, {"key": "t", "value": 2}]))] },
+        // one client has cleared its registrations (null) next to one that holds some
+        Reg {
+            gg: vec![(0, json!(["a", "v"])), (1, Value::Null)],
+            lw: vec![(0, json!([{"key": "t", "value": "lw"}])), (1, Value::Null)],
+        },
     ]
 }
 
@@ -461,7 +466,7 @@ pub fn run_c09(tier: &str) -> i32 {
     ev.set("evaluations", json!(cases.len()));
     ev.set("distinct_nontrivial", json!(nontrivial.len()));
     ev.set("exhaustive", json!(true));
-    ev.set("rule", json!("store contents (every single entry over 9 key shapes (incl. a first segment that only starts with $SYS and $SYS as a later segment) x 10 JSON values x {plain, CAS at version 1, 2, 2^53+1, u64::MAX}; pairs and triples over a reduced value set) x 3 registration sets x on-disk layouts v3/v2/v1 x toggle present/absent; built through the real API, flushed with the real synchronous(), loaded through the real load() fall-back chain; distinct = distinct (values+kinds, registration set, layout, toggle state); all are non-trivial (every case stores at least one value)"));
+    ev.set("rule", json!("store contents (every single entry over 9 key shapes (incl. a first segment that only starts with $SYS and $SYS as a later segment) x 10 JSON values x {plain, CAS at version 1, 2, 2^53+1, u64::MAX}; pairs and triples over a reduced value set) x 5 registration sets x on-disk layouts v3/v2/v1 x toggle present/absent; built through the real API, flushed with the real synchronous(), loaded through the real load() fall-back chain; distinct = distinct (values+kinds, registration set, layout, toggle state); all are non-trivial (every case stores at least one value)"));
     ev.push_sample(json!({"entries": [["a", {"Cas": [1, 2]}, null]], "registration_set": 1, "layout": "v2", "flushes_before_load": 2}));
     ev.push_sample(json!({"entries": [["ä/β", 1e308, u64::MAX]], "registration_set": 0, "layout": "v3", "flushes_before_load": 1}));
     ev.assume("the reference takes the content at the flush from the instance itself (pget # cross-checked with the stored tree) and applies grave goods / last wills with the documented relation");
@@ -527,6 +532,35 @@ pub fn child_main(args: &[String]) -> i32 {
                     wb = periodic_flush(wb, &cfg).await;
                 }
                 note(json!({"flush": flush_no, "phase": "end"}));
+            } else if let Some(i) = step.strip_prefix("pp") {
+                // two ticks of one periodic task; only the registrations change in between
+                let i: i64 = i.parse().expect("state index");
+                let content = content_of(&wb);
+                let regs = |content: &BTreeMap<String, Value>| {
+                    let gg: Vec<String> = content
+                        .iter()
+                        .filter(|(k, _)| k.starts_with("$SYS/clients/") && k.ends_with("/graveGoods"))
+                        .flat_map(|(_, v)| serde_json::from_value::<Vec<String>>(v["p"].clone()).unwrap_or_default())
+                        .collect();
+                    let lw: Vec<(String, Value)> = content
+                        .iter()
+                        .filter(|(k, _)| k.starts_with("$SYS/clients/") && k.ends_with("/lastWill"))
+                        .flat_map(|(_, v)| parse_last_will(&v["p"]).unwrap_or_default())
+                        .collect();
+                    (gg, lw)
+                };
+                let (gg1, lw1) = regs(&content);
+                let expected1 = apply_registrations(&content, &gg1, &lw1, false);
+                let expected2 = apply_registrations(&content, &[format!("gone/{i}")], &[("lw".to_owned(), json!(i))], false);
+                let (n1, n2) = (flush_no + 1, flush_no + 2);
+                flush_no += 2;
+                note(json!({"flush": n1, "phase": "begin", "expected": expected1}));
+                wb = periodic_flush_twice(wb, &cfg, i, &|| {
+                    note(json!({"flush": n1, "phase": "end"}));
+                    note(json!({"flush": n2, "phase": "begin", "expected": expected2}));
+                })
+                .await;
+                note(json!({"flush": n2, "phase": "end"}));
             } else if let Some(i) = step.strip_prefix('s').or_else(|| step.strip_prefix('r')) {
                 let i: i64 = i.parse().expect("state index");
                 if step.starts_with('r') {
@@ -556,17 +590,28 @@ pub fn child_main(args: &[String]) -> i32 {
 /// One tick of the real periodic flush task (`json::periodic`: export through the API, then
 /// write), with the core owned by a task that serves the API meanwhile.
 async fn periodic_flush(wb: Worterbuch, cfg: &Config) -> Worterbuch {
-    periodic_flush_impl(Some(wb), cfg, &|_| {}).await
+    periodic_flush_impl(Some(wb), cfg, &|_| {}, None).await
+}
+
+/// Two consecutive ticks of ONE run of the periodic task (whatever it remembers between ticks stays):
+/// between them only the registrations change (those of state `i`), the user keys stay as they are.
+async fn periodic_flush_twice(wb: Worterbuch, cfg: &Config, i: i64, between: &dyn Fn()) -> Worterbuch {
+    periodic_flush_impl(Some(wb), cfg, &|_| {}, Some((i, between))).await
 }
 
 /// The start-up order of `persistence::restore` with the timer landing first: the periodic flush
 /// task exists before the store is loaded; its tick fires while the load is still outstanding, the
 /// flush waits for its export until the core serves the API, i.e. until after the load.
 async fn boot_flush(cfg: &Config, on_loaded: &dyn Fn(&Worterbuch)) -> Worterbuch {
-    periodic_flush_impl(None, cfg, on_loaded).await
+    periodic_flush_impl(None, cfg, on_loaded, None).await
 }
 
-async fn periodic_flush_impl(wb: Option<Worterbuch>, cfg: &Config, on_loaded: &dyn Fn(&Worterbuch)) -> Worterbuch {
+async fn periodic_flush_impl(
+    wb: Option<Worterbuch>,
+    cfg: &Config,
+    on_loaded: &dyn Fn(&Worterbuch),
+    second: Option<(i64, &dyn Fn())>,
+) -> Worterbuch {
     use tokio::sync::mpsc;
     let (tx, mut rx) = mpsc::channel::<worterbuch::verif::WbFunction>(16);
     let mut pcfg = cfg.clone();
@@ -613,9 +658,14 @@ async fn periodic_flush_impl(wb: Option<Worterbuch>, cfg: &Config, on_loaded: &d
     };
     let toggle = std::path::PathBuf::from(&cfg.data_dir).join(".toggle");
     let before = toggle.exists();
+    let exports = std::sync::Arc::new(std::sync::atomic::AtomicUsize::new(0));
+    let exports2 = exports.clone();
     let core = tokio::spawn(async move {
         let mut wb = wb;
         while let Some(f) = rx.recv().await {
+            if matches!(f, worterbuch::verif::WbFunction::Export(..)) {
+                exports2.fetch_add(1, std::sync::atomic::Ordering::SeqCst);
+            }
             worterbuch::verif::process_api_call(&mut wb, f).await;
         }
         wb
@@ -631,6 +681,35 @@ async fn periodic_flush_impl(wb: Option<Worterbuch>, cfg: &Config, on_loaded: &d
     for _ in 0..50 {
         tokio::task::yield_now().await;
         std::thread::sleep(std::time::Duration::from_micros(200));
+    }
+    if let Some((i, between)) = second {
+        use worterbuch_common::WbApi;
+        between();
+        let r = cid(7);
+        let after_first = toggle.exists();
+        api.set(format!("$SYS/clients/{r}/graveGoods"), json!([format!("gone/{i}")]), r).await.expect("MACHINERY: gg");
+        api.set(format!("$SYS/clients/{r}/lastWill"), json!([{"key": "lw", "value": i}]), r).await.expect("MACHINERY: lw");
+        let served = exports.load(std::sync::atomic::Ordering::SeqCst);
+        tokio::time::advance(std::time::Duration::from_millis(1050)).await;
+        // the second tick is over when the selector has flipped again - or, for a flush that decides
+        // to write nothing, when its export was served and nothing happened for 3 s
+        let mut n = 0;
+        let mut idle_since: Option<std::time::Instant> = None;
+        while toggle.exists() == after_first && n < 40_000 {
+            tokio::task::yield_now().await;
+            std::thread::sleep(std::time::Duration::from_micros(200));
+            n += 1;
+            if exports.load(std::sync::atomic::Ordering::SeqCst) > served {
+                let t = *idle_since.get_or_insert_with(std::time::Instant::now);
+                if t.elapsed() > std::time::Duration::from_secs(3) {
+                    break;
+                }
+            }
+        }
+        for _ in 0..50 {
+            tokio::task::yield_now().await;
+            std::thread::sleep(std::time::Duration::from_micros(200));
+        }
     }
     subsys.request_global_shutdown();
     drop(api);
@@ -743,10 +822,9 @@ pub fn run_c10(tier: &str) -> i32 {
     }
     let flushes = if tier == "thorough" { 4 } else { 3 };
     // alternate the shutdown/follower variant and the periodic variant (export through the API)
-    let script1: String = (1..=flushes)
-        .map(|i| format!("s{i},{}", if i % 2 == 1 { "flush" } else { "pflush" }))
-        .collect::<Vec<_>>()
-        .join(",");
+    // synchronous flush, then two ticks of one periodic task between which only the registrations
+    // change (`pp9`), then (thorough) another synchronous flush: 3 / 4 flushes
+    let script1: String = if flushes == 3 { "s1,flush,s2,pp9".to_owned() } else { "s1,flush,s2,pp9,s3,flush".to_owned() };
     // dry run: number of crash points and the call log
     let dry_dir = fresh_dir(&root, "dry");
     let log = root.join("dry.log");
@@ -904,7 +982,7 @@ pub fn run_c10(tier: &str) -> i32 {
     std::fs::remove_dir_all(&root).ok();
     ev.set("evaluations", json!(evaluations));
     ev.set("distinct_nontrivial", json!(distinct_dirs.len() + l2_dirs.len()));
-    ev.set("rule", json!(format!("history of {flushes} flushes with pairwise distinct stores and registrations, killed before each of its {n1} mutating file-system calls (+ torn variants 0 and 1/2 of every *.tmp write); then from each distinct directory state two second runs (start-up in the server's order with the first periodic tick landing during the load - that flush, a new state, a flush; and load, back to the state the slot written next held before, flush) checked on completion and killed before each of their calls; after every crash the real load() runs on a copy of the directory; distinct_nontrivial = number of distinct directory states left behind (file set + contents)")));
+    ev.set("rule", json!(format!("history of {flushes} flushes (a synchronous one, two ticks of one run of the periodic task between which only the registrations change, in thorough another synchronous one), killed before each of its {n1} mutating file-system calls (+ torn variants 0 and 1/2 of every *.tmp write); then from each distinct directory state two second runs (start-up in the server's order with the first periodic tick landing during the load - that flush, a new state, a flush; and load, back to the state the slot written next held before, flush) checked on completion and killed before each of their calls; after every crash the real load() runs on a copy of the directory; distinct_nontrivial = number of distinct directory states left behind (file set + contents)")));
     ev.set("crash_points_level1", json!(n1));
     ev.set("level1_runs", json!(jobs.len()));
     ev.set("level1_distinct_directory_states", json!(distinct_dirs.len()));
